@@ -20,7 +20,7 @@ RULE = ('BFS over all histories of {new root, child, MultiContext([x,y]), Linked
         'every transition is judged on all observables of all contexts; a state is non-trivial when the forest contains a multi or linked '
         'context or a child, i.e. more than one layer is involved')
 ASSUMPTIONS = ['contexts use the CamelCaseConvention; functions are looked up by their registered name and by their python name with use_convention=True',
-               'values are 1, 2 and null (a variable set to null is defined: it shadows farther layers and is a member/key)',
+               'values are 1, 2, 0 and null (a variable set to null or to a falsy value is defined: it shadows farther layers and is a member/key)',
                'delete_function also clears the exclusive mark of that name in the stores it touches (documented code fact, DESIGN A.4)',
                'values are small integers; function overloads are distinguishable zero-argument functions named f']
 BOUNDS = {
@@ -29,7 +29,7 @@ BOUNDS = {
     'thorough': 'profile S: <=5 contexts, <=3 operations, depth 7; profile O: <=3 contexts, depth 7; profile M: <=4 contexts, <=4 operations, depth 7',
 }
 
-SET_EVENTS = (('a', 1), ('a', 2), ('a', None), ('$', 1), ('1', 2), ('', None))
+SET_EVENTS = (('a', 1), ('a', 2), ('a', None), ('a', 0), ('$', 1), ('1', 2), ('', None))
 NAMES = ('a', '$', '1', '')
 TAGS = ('t0', 't1')
 CREATE = ('root', 'child', 'multi', 'linked')
@@ -253,6 +253,88 @@ def job_search(label, root_hist, max_nodes, max_ops, max_depth):
     return res
 
 
+# ---------------------------------------------------------------------------
+# trees whose parts use different naming conventions
+# ---------------------------------------------------------------------------
+def job_conventions():
+    """Two small context trees A and B, each registered under its own convention (CamelCase or Python), combined as
+    LinkedContext(A, B), LinkedContext(B, A), MultiContext([A, B]), MultiContext([B, A]) and children of those.  Every store
+    translates a looked-up python name with the convention it registered its functions with, so collecting by python
+    name with use_convention=True finds every layer; a literal name finds only the stores that registered that spelling."""
+    import itertools
+    res = Result()
+    convs = {'camel': conventions.CamelCaseConvention(), 'python': conventions.PythonConvention()}
+    regname = {'camel': 'fG', 'python': 'f_g'}
+
+    def tree(label, conv, depth, excl_at):
+        """-> list of (context, store description) from root to leaf"""
+        chain = []
+        ctx = None
+        for d in range(depth):
+            ctx = contexts.Context(ctx, convention=convs[conv]) if ctx is None else ctx.create_child_context()
+            tag = '%s%d' % (label, d)
+
+            def f_g(tag=tag):
+                return tag
+            ctx.register_function(f_g, exclusive=(excl_at == d))
+            fd = next(iter(ctx._functions[regname[conv]]))
+            fd.meta = {'tag': tag}
+            chain.append((ctx, {'tag': tag, 'conv': conv, 'excl': excl_at == d}))
+        return chain
+
+    def expected(layers, lookup):
+        """layers: nearest first, each a list of store descriptions."""
+        out = []
+        for layer in layers:
+            hit = [s for s in layer if lookup == 'by-python-name' or lookup == regname[s['conv']]]
+            if hit:
+                out.append(sorted(s['tag'] for s in hit))
+            if any(s['excl'] for s in hit):
+                break
+        return out
+
+    for ca, cb, da, db, ea, eb in itertools.product(convs, convs, (1, 2), (1, 2), (None, 0), (None, 0, 1)):
+        if eb is not None and eb >= db:
+            continue
+        for topo_ in ('linked(A,B)', 'linked(B,A)', 'multi[A,B]', 'multi[B,A]'):
+            A = tree('a', ca, da, ea)
+            B = tree('b', cb, db, eb)
+            la = [[s] for _c, s in reversed(A)]
+            lb = [[s] for _c, s in reversed(B)]
+            if topo_.startswith('linked'):
+                par, lnk = (A, B) if topo_ == 'linked(A,B)' else (B, A)
+                top = contexts.LinkedContext(par[-1][0], lnk[-1][0])
+                lp = la if par is A else lb
+                ll = lb if par is A else la
+                layers = ll + lp
+            else:
+                first, second = (A, B) if topo_ == 'multi[A,B]' else (B, A)
+                top = contexts.MultiContext([first[-1][0], second[-1][0]])
+                lf = la if first is A else lb
+                ls = lb if first is A else la
+                layers = [(lf[k] if k < len(lf) else []) + (ls[k] if k < len(ls) else []) for k in range(max(len(lf), len(ls)))]
+            for ctx_name, ctx, lay in ((topo_, top, layers), ('child-of-' + topo_, top.create_child_context(), [[]] + layers)):
+                for lookup, name, kw in (('by-python-name', 'f_g', {'use_convention': True}), ('fG', 'fG', {}), ('f_g', 'f_g', {})):
+                    case = {'kind': 'conventions', 'A': [ca, da, ea], 'B': [cb, db, eb], 'topology': ctx_name, 'lookup': lookup}
+                    CURRENT_CASE[0] = case
+                    res.case(('conv', ca, cb, da, db, ea, eb, ctx_name, lookup))
+                    res.evaluations += 1
+                    res.transitions += 1
+                    res.nontrivial += 1
+                    try:
+                        got = [sorted(fd.meta['tag'] for fd in layer) for layer in ctx.collect_functions(name, **kw)]
+                    except Exception as e:
+                        got = 'raised %s' % type(e).__name__
+                    exp = expected(lay, lookup)
+                    res.outcomes['conventions %s' % ('agree' if got == exp else 'differ')] += 1
+                    if got != exp:
+                        res.fail('collect_functions across a convention boundary ctx=%s lookup=%s'
+                                 % (ctx_name.replace('child-of-', 'child-of-').split('(')[0].split('[')[0], 'by-python-name' if kw else 'literal'),
+                                 case, 'A=%s B=%s %s lookup %s: model %r real %r' % ((ca, da, ea), (cb, db, eb), ctx_name, lookup, exp, got))
+    res.sample({'kind': 'conventions', 'example': "LinkedContext(python-convention host, CamelCase library).collect_functions('f_g', use_convention=True)"})
+    return res
+
+
 PROFILES = {
     'quick': (('S', 5, 1, 6), ('O', 3, 5, 5), ('M', 4, 2, 6)),
     'thorough': (('S', 5, 3, 7), ('O', 3, 7, 7), ('M', 4, 4, 7)),
@@ -260,7 +342,7 @@ PROFILES = {
 
 
 def jobs(tier, seed):
-    out = []
+    out = [('conventions', 'job_conventions', ())]
     for name, max_nodes, max_ops, depth in PROFILES[tier]:
         # shard by the first three events (histories start with a root)
         en = make_enabled(max_nodes, max_ops)
@@ -285,6 +367,9 @@ def jobs(tier, seed):
 
 
 def replay(case):
+    if case.get('kind') == 'conventions':
+        r = job_conventions()
+        return {'observed': [f.detail for f in r.failures.values()], 'expected': 'model', 'ok': not r.failures}
     hist = [tuple(e) for e in case['history']]
     res = Result()
     w = build(tuple(hist[:-1]))
